@@ -328,6 +328,21 @@ pub fn run(cfg: &Cfg) {
                 }
                 sink.stat("args/link-named");
             }
+            // a path argument that climbs back out of a symbolic link (`<link>/..`, `<link>/../<name>`):
+            // arguments are normalised as texts - the directory that holds the link is meant, not the
+            // parent of wherever the link points
+            _ if !twins && !links_of_tree.is_empty() && i % 3 == 1 => {
+                let l = r.pick(&links_of_tree).clone();
+                let link = l.join("/");
+                let parent: Vec<String> = l[..l.len() - 1].to_vec();
+                let siblings: Vec<String> = targets.iter().filter(|t| t.0.len() == parent.len() + 1 && t.0[..parent.len()] == parent[..]).map(|t| t.0[parent.len()].clone()).collect();
+                if siblings.is_empty() || r.chance(1, 3) {
+                    args.push(format!("{}/..", link));
+                } else {
+                    args.push(format!("{}/../{}", link, r.pick(&siblings)));
+                }
+                sink.stat("args/out-of-a-link");
+            }
             _ if twins => {
                 let (a, b) = if r.chance(1, 2) { ("twin1", "twin2") } else { ("twin2", "twin1") };
                 sibling_strips = Some(match r.below(4) {
@@ -493,6 +508,10 @@ pub fn run(cfg: &Cfg) {
             let mut want = std::collections::BTreeSet::new();
             let known = args.iter().all(|a| ewalk(Path::new(path_clean::clean(a).to_str().unwrap_or(".")), &mut vec![], &mut want).is_some());
             std::env::set_current_dir(&old).unwrap();
+            // (what can be walked can be recorded: without strip prefixes no two files want the same key)
+            if known {
+                sink.oracle(!matches!(res, Ok(Err(_))), "recording fails although every path argument names files and directories that can be walked", &op);
+            }
             if let (true, Ok(Ok(m))) = (known, &res) {
                 let got: std::collections::BTreeSet<String> = m.keys().map(|k| k.value().to_string()).collect();
                 let missing: Vec<&String> = want.difference(&got).collect();
